@@ -64,7 +64,10 @@ OutcomeInv ==
           /\ (act.legal = "no" => act.res = "ifc")
 
 \* TLC evaluates invariants on newly found view-states only: a transition with a wrong outcome must be a new view-state
-View == <<ref, im, OutcomeInv>>
+\* `depth` stays in the view of the model check: with several workers TLC's search is not strictly breadth-first, and a
+\* hidden depth counter would make the set of explored histories depend on the schedule.  The emitter runs with one worker.
+View  == <<ref, im, OutcomeInv, depth>>
+ViewE == <<ref, im, OutcomeInv>>
 
 \* every transition once: program before, action, outcome, program after with the predicted memory layout
 Emit == PrintT(<<"TRANSITION", ToJson([from |-> Pairs(ref), a |-> act', to |-> Pairs(ref'),
